@@ -33,7 +33,8 @@ func (t *TextTemplater) Apply(payload []byte, metadata map[string]string, variab
 	strBuilder.Reset()
 
 	for k, v := range metadata {
-		tmpl, err = t.getTemplate(v, scenarioName, stepName, k)
+		// "metadata "+k: a metadata key named "payload" must not share the cached template of the payload
+		tmpl, err = t.getTemplate(v, scenarioName, stepName, "metadata "+k)
 		if err != nil {
 			return nil, fmt.Errorf("%s, template.Execute Header %s, %w", op, k, err)
 		}
@@ -48,7 +49,9 @@ func (t *TextTemplater) Apply(payload []byte, metadata map[string]string, variab
 }
 
 func (t *TextTemplater) getTemplate(tmplBody, scenarioName, stepName, key string) (*template.Template, error) {
-	urlKey := fmt.Sprintf("%s_%s_%s", scenarioName, stepName, key)
+	// %q: the cache is shared by all calls of all scenarios of the gun; scenario "a" + call "b_c" and
+	// scenario "a_b" + call "c" must not get the same key
+	urlKey := fmt.Sprintf("%q_%q_%q", scenarioName, stepName, key)
 	tmpl, ok := t.templatesCache.Load(urlKey)
 	if !ok {
 		var err error
